@@ -388,7 +388,15 @@ func main() {
 		for lo := 0; lo < n; lo += 8 {
 			units = append(units, unit{s, "byte", lo, min(lo+8, n)})
 		}
-		units = append(units, unit{s, "field", 0, 0}, unit{s, "struct", 0, 0}, unit{s, "trunc", 0, 0})
+		// one unit per (node, first field): the pairs of a 256-child node are tens of millions of
+		// mutants, which as a single unit ran for hours on one core after everything else had finished
+		for ni, nd := range nodesOf(s.file) {
+			ar := (nd[1] - 16) / 16
+			for fi := 0; fi < 5*ar+3; fi++ {
+				units = append(units, unit{s, "field", ni, fi})
+			}
+		}
+		units = append(units, unit{s, "struct", 0, 0}, unit{s, "trunc", 0, 0})
 	}
 	units = append(units, unit{seeds[0], "empty2", 0, 0})
 
@@ -431,6 +439,9 @@ func main() {
 			}
 		case "field":
 			for ni, nd := range nodes {
+				if ni != u.lo {
+					continue
+				}
 				off, n := nd[0], nd[1]
 				ar := (n - 16) / 16
 				parentOff, sibOff := nodes[0][0], nodes[(ni+1)%len(nodes)][0]
@@ -465,8 +476,17 @@ func main() {
 					}
 					return []int64{0, 1, 2, 0x3F, 0x40, 0x80, 0xBF, 0xC0, 0xFC, 0xFD, 0xFE, 0xFF}
 				}
+				if len(fields) != 5*ar+3 {
+					ev.Fatal("C15: field count %d of node %d does not match the unit layout %d", len(fields), ni, 5*ar+3)
+				}
 				for fi, fd := range fields {
+					if fi != u.hi {
+						continue
+					}
 					for _, v := range valsFor(fd) {
+						if r.Expired() {
+							break
+						}
 						f := append([]byte{}, s.file...)
 						apply(f, fd, v)
 						racspec.FixChecksum(f[off : off+n])
